@@ -226,7 +226,7 @@ pub fn run_property(p: &dyn Prop, tier: Tier, seed: u64) -> RunResult {
         std::env::var("VERIF_WALL_CAP_S")
             .ok()
             .and_then(|s| s.parse().ok())
-            .unwrap_or(tier.pick(300, 3600)),
+            .unwrap_or(tier.pick(1800, 14400)),
     );
     let capped = AtomicBool::new(false);
     let executed = AtomicU64::new(0);
@@ -239,7 +239,7 @@ pub fn run_property(p: &dyn Prop, tier: Tier, seed: u64) -> RunResult {
         std::env::var("VERIF_CASE_TIMEOUT_S")
             .ok()
             .and_then(|s| s.parse().ok())
-            .unwrap_or(tier.pick(120, 900)),
+            .unwrap_or(tier.pick(600, 3600)),
     );
     let results: Vec<Option<Outcome>> = std::thread::scope(|scope| {
         let watch2 = watch.clone();
